@@ -116,6 +116,7 @@ func (this *Dataset) SizeInfo(ctx context.Context) (uint64, uint64, error) {
 			errorCh <- nil
 		} else {
 			wg.Add(1)
+			partition := partition // the goroutine must not share the loop variable
 			go func(ctx context.Context, wg *sync.WaitGroup, errorCh chan error, len *uint64, bytesSize *uint64) {
 				defer wg.Done()
 				client, err := this.getDataManagerClient(ctx, partition.randomNodeId())
@@ -180,7 +181,7 @@ func (this *Dataset) Insert(ctx context.Context, id uuid.UUID, value math.Vector
 		// Proxy the request to the partition leader
 		client, err := this.getDataManagerClient(ctx, partition.randomNodeId())
 		if err != nil {
-			return nil
+			return err
 		}
 		_, err = client.Insert(ctx, &pb.InsertRequest{
 			DatasetId: this.id.Bytes(),
@@ -204,7 +205,7 @@ func (this *Dataset) Update(ctx context.Context, id uuid.UUID, value math.Vector
 		// Proxy the request to the partition leader
 		client, err := this.getDataManagerClient(ctx, partition.randomNodeId())
 		if err != nil {
-			return nil
+			return err
 		}
 		_, err = client.Update(ctx, &pb.UpdateRequest{
 			DatasetId: this.id.Bytes(),
@@ -224,7 +225,7 @@ func (this *Dataset) Remove(ctx context.Context, id uuid.UUID) error {
 		// Proxy the request to the partition leader
 		client, err := this.getDataManagerClient(ctx, partition.randomNodeId())
 		if err != nil {
-			return nil
+			return err
 		}
 		_, err = client.Remove(ctx, &pb.RemoveRequest{
 			DatasetId: this.id.Bytes(),
@@ -366,12 +367,6 @@ func (this *Dataset) Search(ctx context.Context, query math.Vector, k uint) (ind
 		go this.searchPartitionsOnNode(ctx, nodeId, partitionIds, query, k, wg, resultCh, errorCh)
 	}
 
-	go func() {
-		wg.Wait()
-		close(resultCh)
-		close(errorCh)
-	}()
-
 	result := make(index.SearchResult, 0, int(k)*len(nodePartitions))
 	for i := 0; i < len(nodePartitions); i++ {
 		verifGate("search.collect", i)
@@ -410,12 +405,6 @@ func (this *Dataset) SearchPartitions(ctx context.Context, partitionIds []uuid.U
 		wg.Add(1)
 		go this.searchPartition(ctx, partition, query, k, wg, resultCh, errorCh)
 	}
-
-	go func() {
-		wg.Wait()
-		close(resultCh)
-		close(errorCh)
-	}()
 
 	result := make(index.SearchResult, 0, int(k)*len(partitions))
 	for i := 0; i < len(partitions); i++ {
@@ -514,6 +503,7 @@ func (this *Dataset) searchPartitionsOnNode(ctx context.Context, nodeId uint64, 
 		id, err := uuid.FromBytes(item.GetId())
 		if err != nil {
 			errorCh <- err
+			return
 		}
 
 		result = append(result, index.SearchResultItem{
